@@ -56,6 +56,17 @@ def run(ctx):
         seps = ['' if not d.startswith('%') or i == 0 or (ds[i - 1] in EMPTY and ctx.rng.random() < 0.6) else '...\n' for i, d in enumerate(ds)]
         streams.append([ds, ctx.rng.choice(['py', 'c']), seps])
     corr.direct(ctx, 'c11s', streams, describe=lambda c: dict(docs_text=c[0], backend=c[1], seps=c[2]), label='stream')
+    # dump side: what a document declares (%TAG handles, %YAML) must not be in force for a later document that does not declare it - event streams in
+    # which an earlier document declares a handle and a later one carries a tag under that prefix (emit -> parse must give the events back)
+    evc = []
+    for tags1 in ([('!e!', 'tag:example.com,2000:')], [('!', '!my-')], [('!e!', 'tag:example.com,2000:'), ('!a!', 'x:')]):
+        for tag2 in ('tag:example.com,2000:x', '!my-t', 'x:y', '!e!x'):
+            for kind in ('SC', 'QS', 'MS'):
+                node = {'SC': [('SC', None, tag2, False, False, 'v', None)], 'QS': [('QS', None, tag2, False, False), ('QE',)], 'MS': [('MS', None, tag2, False, True), ('ME',)]}[kind]
+                evs = [('SS',), ('DS', True, None, tags1), ('SC', None, tags1[0][1] + 'a', False, False, 'w', None), ('DE', False),
+                       ('DS', ctx.rng.choice([True, False]), None, [])] + node + [('DE', False), ('SE',)]
+                for be in ('py', 'c'): evc.append([events.enc_case(evs, events.options(ctx.rng)), be, True])
+    corr.direct(ctx, 'c05', evc, describe=lambda c: dict(events=c[0], backend=c[1], wellformed=c[2]), label='emit_stream')
     ctx.partial = [dict(theorem='stream_is_list_of_docs / parser_doc_independent / serializer and representer resets', missing='global-write confinement (regenerated) and the per-document reset of the load model are proved; the rest is decided by correspondence and the direct history run')]
     return ctx.finish(assumptions=['fresh interpreter = a fork of a process that has only imported yaml'])
 
@@ -64,5 +75,6 @@ def replay(ctx, path):
     ctx.regen(); ctx.prove()
     c = d.get('case', {})
     if 'calls' in c: corr.direct(ctx, 'c11', [[c['calls']]], describe=lambda c: dict(calls=c[0]))
+    if 'events' in c: corr.direct(ctx, 'c05', [[c['events'], c.get('backend', 'py'), True]], describe=lambda c: dict(events=c[0], backend=c[1], wellformed=c[2]))
     if 'docs_text' in c: corr.direct(ctx, 'c11s', [[c['docs_text'], c.get('backend', 'py'), c.get('seps')]], describe=lambda c: dict(docs_text=c[0], backend=c[1], seps=c[2]))
     return ctx.finish()
